@@ -205,7 +205,10 @@ class C07(Prop):
                  "forall p : list N, enc_collect p = frame p /\\ encode_buf None p = Some (frame p) /\\ "
                  "(forall n : nat, encode_buf (Some n) p = if Nat.leb (length (frame p)) n then Some (frame p) else None) /\\ "
                  "(forall k : nat, snd (enc_collect_from (enc_limit p) (enc_new p) []) = ENone /\\ "
-                 "enc_after k (fst (fst (enc_collect_from (enc_limit p) (enc_new p) []))) = repeat ENone k)")]
+                 "enc_after k (fst (fst (enc_collect_from (enc_limit p) (enc_new p) []))) = repeat ENone k)"),
+                ("C07_size", "forall p : list N, length (frame p) = (length (esc p) + pad_of (length (esc p)) + 16)%nat /\\ "
+                 "(Nat.modulo (length (frame p)) 4 = 0)%nat /\\ (length p + 16 <= length (frame p) <= 2 * length p + 19)%nat"),
+                ("C07_buffer_suffices", "forall (p : list N) (n : nat), (2 * length p + 19 <= n)%nat -> encode_buf (Some n) p = Some (frame p)")]
     level_text = ("Theorem C07_format (Coq, closed under the global context): for every payload the iterator encoder collects to frame p, "
                   "the buffer encoder returns frame p (growable) resp. frame p iff it fits / OutOfMemory otherwise (any capacity), and "
                   "the iterator returns None forever afterwards; frame is the independent wire-format specification (Spec/Frame.v). "
@@ -1991,6 +1994,19 @@ class C12(ParserProp):
         for b in range(256):
             d = tlf_probe_value(b"\x42", bytes([b]))
             out.append(Case("parse " + hx(d), "bool", dict(d=d)))
+        # a time position holding a bare unsigned of 1-3 data bytes followed by filler: the declared length counts
+        for k in (1, 2, 3):
+            for _ in range(3):
+                m = gen.gen_message(rng, "list", nentries=1)
+                ch = list(m["chunks"])
+                ch[len(ch) - 2 - 8 + 3] = bytes([0x61 + k]) + bytes(rng.getrandbits(8) for _ in range(4))     # val_time
+                d = gen.close_message(rng, ch)
+                out.append(Case("parse " + hx(d), "time-short-unsigned", dict(d=d)))
+        # byte strings at the 16-bit boundary
+        for n in (65535, 65536):
+            data = bytes(rng.getrandbits(8) for _ in range(n))
+            d = tlf_probe_value(gen.tlf_bytes(0, n + 5, 5), data)
+            out.append(Case("parse " + hx(d), "octet", dict(d=d)))
         for _ in range(300):
             n = rng.choice([0, 1, 14, 15, 16, 17, 30, 255, 256, 300])
             data = bytes(rng.getrandbits(8) for _ in range(n))
@@ -2245,7 +2261,9 @@ class C11(Prop):
                 ("C11_other",
                  "forall (cap : cap_t) (k : skind) (d : dec) (evs : list sev) (lim : nat), "
                  "snd (rd_all cap (S lim) (mkrd d k (SOther :: evs))) = RdIoErr EkOther (reset_cnt d) :: snd (rd_all cap lim (rd_new k evs))"),
-                ("C11_eof", None)]
+                ("C11_eof", None),
+                ("C11_pause", "forall (cap : cap_t) (d : dec) (evs : list sev), "
+                 "dr_read cap (mkrd d KIo (SZero :: evs)) = (mkrd (fst (reset d)) KIo evs, RdIoErr EkEof (reset_cnt d))")]
     level_text = ("Theorems C11_wouldblock, _once, _untouched, C11_other, C11_eof (Coq, closed): for every event schedule of an io::Read "
                   "source, dropping the would-block results gives exactly the run with all WouldBlock/Interrupted events removed; each "
                   "would-block surfaces once and leaves decoder and source untouched; another error returns the not-yet-reported count and "
